@@ -28,6 +28,7 @@ GAPS = [1, 5, 6]
 def main(tier, rep):
     vclock.install()
     common.import_repo()
+    T0 = common._real_time()
     length = 2 if tier == "quick" else 3
     ops = OPS[:3]
     faults = FAULTS if tier == "quick" else FAULTS[:5] + FAULTS[7:]
@@ -95,12 +96,17 @@ def main(tier, rep):
                     steps = [("call", "set", False, None, "all"), ("tick", 1), ("call", special, None, None, "all"), ("tick", 1),
                              ("call", "get", None, None, "all"), ("call", special, None, None, "bytes"), ("call", "add", False, None, "all")]
                     traces.append(L.run_program(cfg, steps))
+    rep.set("t_programs_s", round(common._real_time() - T0, 1)); T0 = common._real_time()
     L.validate(rep, traces, relevant, PROP)
+    rep.set("t_validate_s", round(common._real_time() - T0, 1)); T0 = common._real_time()
     # spec -> code: the pooled + idle-clock variant of the as-coded model spec/Conn.tla
     from drivers import connmodel
     connmodel.design_and_replay(rep, tier, PROP, relevant, kinds=["pooled", "hashpooled"], pooled=True, idle=1)
+    rep.set("t_conn_model_s", round(common._real_time() - T0, 1)); T0 = common._real_time()
     npool = pool_level(rep, tier)
+    rep.set("t_pool_level_s", round(common._real_time() - T0, 1)); T0 = common._real_time()
     rep.set("pool_model_behaviours_replayed", pool_model(rep, tier))
+    rep.set("t_pool_model_s", round(common._real_time() - T0, 1))
     rep.set("pool_level_histories", npool)
     rep.set("evaluations", len(traces))
     rep.set("distinct_nontrivial", len({(t["h"]["kind"], t["cfg"]["idle"], t["cfg"]["max_pool"], t["cfg"]["ignore_exc"]) +
